@@ -14,7 +14,7 @@ CONSTANTS MaxMsgs, MaxMsgsR, MaxDepth, MaxTasks, MaxResv, ActTypes, MsgTypes, Ea
 VARIABLES S, resv, nres      \* the list; reserved-and-not-yet-continued positions; how many were ever reserved
 vars == <<S, resv, nres>>
 
-Mk(u, lv, k, ty, st) == [u |-> u, lv |-> lv, k |-> k, ty |-> ty, st |-> st, f |-> [x |-> Len(S) + 1, c |-> 7]]
+Mk(u, lv, k, ty, st) == [u |-> u, lv |-> lv, k |-> k, ty |-> ty, st |-> st, f |-> [x |-> Len(S) + 1, c |-> 7, n |-> NoneV]]
 NumTasks == Cardinality(Uuids(S))
 Open == {a \in Started(S) : ~HasEnd(S, a)}
 TypeOfAct(a) == S[CHOOSE i \in StartIdx(S, a.u, a.l) : TRUE].ty
@@ -55,12 +55,12 @@ GenNext == \/ \E ty \in ActTypes : NewTask(ty)
 
 -----------------------------------------------------------------------------
 \* ---- hand-written lists: <<u, lv, k, ty>>; an end is "failed" when its type ends in "!" (stripped)
-M(i, u, lv, k, ty, st) == [u |-> u, lv |-> lv, k |-> k, ty |-> ty, st |-> st, f |-> [x |-> i, c |-> 7]]
+M(i, u, lv, k, ty, st) == [u |-> u, lv |-> lv, k |-> k, ty |-> ty, st |-> st, f |-> [x |-> i, c |-> 7, n |-> NoneV]]
 St(i, u, lv, ty) == M(i, u, lv, "start", ty, "started")
 Ok(i, u, lv, ty) == M(i, u, lv, "end", ty, "succeeded")
 Ko(i, u, lv, ty) == M(i, u, lv, "end", ty, "failed")
 Mg(i, u, lv, ty) == M(i, u, lv, "msg", ty, "")
-Renumber(s) == [i \in DOMAIN s |-> [s[i] EXCEPT !.f = [x |-> i, c |-> 7]]]
+Renumber(s) == [i \in DOMAIN s |-> [s[i] EXCEPT !.f = [x |-> i, c |-> 7, n |-> NoneV]]]
 
 \* H1: two-digit positions.  Equal-typed children of the root at positions 2, 20 and 22 (prefixes [2], [20], [22]);
 \* the action at [2] has a child at [2,2] ("22" when levels are glued together) and the root has direct messages
